@@ -211,36 +211,7 @@ func (d *driver) runDocker(key string, scns []*scenario) ([]*blockOut, error) {
 		if s.Tgt == "reg" {
 			t.Meta["pushes"] = pushesOf(e.net.Log(), repo, name)
 		}
-		// the image the tag resolves to
-		found, gcfg, glayers := 0, "", []string{}
-		if top, ok := st.tags[impTag]; ok {
-			var m struct {
-				Config *jdesc  `json:"config"`
-				Layers []jdesc `json:"layers"`
-			}
-			if mb, ok := st.objs[top]; ok && json.Unmarshal(mb, &m) == nil && m.Config != nil {
-				found = 1
-				if cb, ok := st.objs[m.Config.Digest]; ok {
-					gcfg = sha256hex(cb)
-				} else {
-					found = 0
-				}
-				for _, l := range m.Layers {
-					lb, ok := st.objs[l.Digest]
-					if !ok {
-						found = 0
-						glayers = append(glayers, "absent")
-						continue
-					}
-					u, _, err := gunzipIfNeeded(lb)
-					if err != nil {
-						glayers = append(glayers, "undecodable")
-						continue
-					}
-					glayers = append(glayers, sha256hex(u))
-				}
-			}
-		}
+		found, gcfg, glayers := dockerTarget(st)
 		t.Events = append(t.Events, vtrace.Event{"ev": "dk_target", "id": s.ID, "found": found, "cfg": gcfg, "layers": glayers, "skip": 0})
 		if dir != "" {
 			_ = os.RemoveAll(dir)
@@ -252,4 +223,154 @@ func (d *driver) runDocker(key string, scns []*scenario) ([]*blockOut, error) {
 		b.Traces = append(b.Traces, t)
 	}
 	return []*blockOut{b}, nil
+}
+
+// dockerTarget inspects the image the import tag resolves to in a raw target store: the sha256 of
+// its config bytes and of every layer after decompression; found = manifest, config and layers exist.
+func dockerTarget(st *store) (int, string, []string) {
+	found, gcfg, glayers := 0, "", []string{}
+	top, ok := st.tags[impTag]
+	if !ok {
+		return found, gcfg, glayers
+	}
+	var m struct {
+		Config *jdesc  `json:"config"`
+		Layers []jdesc `json:"layers"`
+	}
+	mb, ok := st.objs[top]
+	if !ok || json.Unmarshal(mb, &m) != nil || m.Config == nil {
+		return found, gcfg, glayers
+	}
+	found = 1
+	if cb, ok := st.objs[m.Config.Digest]; ok {
+		gcfg = sha256hex(cb)
+	} else {
+		found = 0
+	}
+	for _, l := range m.Layers {
+		lb, ok := st.objs[l.Digest]
+		if !ok {
+			found = 0
+			glayers = append(glayers, "absent")
+			continue
+		}
+		u, _, err := gunzipIfNeeded(lb)
+		if err != nil {
+			glayers = append(glayers, "undecodable")
+			continue
+		}
+		glayers = append(glayers, sha256hex(u))
+	}
+	return found, gcfg, glayers
+}
+
+// importDockerRest imports what is left of a single image export when oci-layout and index.json are
+// taken away: a Docker format archive (manifest.json + blobs/...), selected by the plain name:tag of
+// the export name.  The archive's own statement of the image (config, layers of manifest.json)
+// is the expectation.
+func (d *driver) importDockerRest(e *env, key string, g *graph, ex *export, pool map[string][]byte, scns []*scenario) *blockOut {
+	b := &blockOut{Block: key + "#dkrest", Kind: "docker", Traces: []*traceOut{}, Meta: map[string]any{"graph": g.name, "name": ex.dockerName}}
+	byName := map[string][]byte{}
+	for _, en := range ex.entries {
+		if en.typ == "file" {
+			byName[en.name] = en.data
+		}
+	}
+	kcfg, kl := "", []string{}
+	var dm []struct {
+		Config string
+		Layers []string
+	}
+	if json.Unmarshal(pool["docker"], &dm) == nil && len(dm) > 0 {
+		if cb, ok := byName[path.Clean(dm[0].Config)]; ok {
+			kcfg = sha256hex(cb)
+		}
+		for _, l := range dm[0].Layers {
+			lb, ok := byName[path.Clean(l)]
+			if !ok {
+				kl = append(kl, "not in the archive")
+				continue
+			}
+			u, _, err := gunzipIfNeeded(lb)
+			if err != nil {
+				u = lb
+			}
+			kl = append(kl, sha256hex(u))
+		}
+	}
+	b.Lines = append(b.Lines, vtrace.Event{"ev": "dk_archive", "block": b.Block, "cfg": kcfg, "layers": kl, "gzlayers": 0, "images": len(dm)})
+	for _, s := range scns {
+		if ex.dockerName == "" {
+			fail(fmt.Errorf("scenario %s: the Docker name of an export from a layout without override is not known", s.ID))
+		}
+		t := &traceOut{ID: s.ID, Scn: s, Meta: map[string]any{"name": ex.dockerName}}
+		t.Events = append(t.Events, vtrace.Event{"ev": "dk_begin", "id": s.ID})
+		archive, err := repack(s.Arch, g, pool, s.Gzip == 1)
+		if err != nil {
+			fail(err)
+		}
+		d.nRepo++
+		repo := fmt.Sprintf("tgt/r%06d", d.nRepo)
+		var dir, rstr string
+		if s.Tgt == "reg" {
+			rstr = fmt.Sprintf("%s/%s:%s", tgtHost, repo, impTag)
+		} else {
+			dir = d.newDir("tgt")
+			rstr = fmt.Sprintf("ocidir://%s:%s", dir, impTag)
+		}
+		rt, err := ref.New(rstr)
+		if err != nil {
+			fail(err)
+		}
+		e.net.ResetLog()
+		sk := &seekCounter{Reader: bytes.NewReader(archive)}
+		ierr := e.rc.ImageImport(context.Background(), rt, sk, regclient.ImageWithImportName(ex.dockerName))
+		if s.Tgt == "dir" {
+			_ = e.rc.Close(context.Background(), rt)
+		}
+		t.Events = append(t.Events, vtrace.Event{"ev": "dk_result", "id": s.ID, "ok": b2i(ierr == nil)})
+		t.Meta["passes"] = sk.n
+		if ierr != nil {
+			t.Meta["err"] = ierr.Error()
+		}
+		var st *store
+		if s.Tgt == "reg" {
+			st = storeOfRepo(e.tgt, repo)
+			t.Meta["pushes"] = pushesOf(e.net.Log(), repo, func(dig string, body []byte) string {
+				if body != nil {
+					return "dkman"
+				}
+				if n, ok := g.byDig[dig]; ok {
+					return n
+				}
+				if bb, ok := st.objs[dig]; ok {
+					if u, _, err := gunzipIfNeeded(bb); err == nil {
+						if n, ok := g.byDig["sha256:"+sha256hex(u)]; ok {
+							return n
+						}
+						if n, ok := g.byDig["sha512:"+sha512hex(u)]; ok {
+							return n
+						}
+					}
+				}
+				return "?" + dig
+			})
+		} else {
+			st, err = storeOfDir(dir)
+			if err != nil {
+				fail(err)
+			}
+		}
+		found, gcfg, glayers := dockerTarget(st)
+		t.Events = append(t.Events, vtrace.Event{"ev": "dk_target", "id": s.ID, "found": found, "cfg": gcfg, "layers": glayers, "skip": 0})
+		if dir != "" {
+			_ = os.RemoveAll(dir)
+		} else {
+			e.tgt.Lock()
+			delete(e.tgt.Repos, repo)
+			e.tgt.Unlock()
+		}
+		b.Traces = append(b.Traces, t)
+	}
+	return b
 }
